@@ -1,16 +1,113 @@
 /-
   PCV.Model.DrvC16 — driver requests of property C16 (op names start with "c16.").
+
+  Wire forms:
+    term      `[coeff, none]` (LCTerm::One) or `[coeff, some([bytes])]` (PolyLabel)
+    op        `[0,c,terms]` `+= (c, lc)`   `[1,c,terms]` `-= (c, lc)`   `[2,terms]` `+= lc`
+              `[3,terms]` `-= lc`   `[4,c]` `+= c`   `[5,c]` `-= c`   `[6,c]` `*= c`
+              `[7,c,optlabel]` `push((c, term))`
+    c16.lc    init=terms ops=[op,…] sigma=[[[bytes],v],…]
+              → coeffs=[…] labels=[none|some([bytes]),…] value=v spec=v
+    c16.succinct  us=[…] z=v → coeffs=[…] len=n value=v horner=v
+    c16.qs    polys=[[[bytes],[coeffs]],…] qs=[[[bytes],[bytes],pt],…]
+              → labels=[[bytes],…] points=[…] vals=[…]  |  err abort
 -/
 import PCV.Model.Wire
 import PCV.Model.DrvUtil
+import PCV.Model.LC
+import PCV.Model.Succinct
+import PCV.Model.QuerySet
 namespace PCV
 namespace DrvC16
+open Driver
+
+variable {p : Nat}
+
+def asOptLabel (v : Val) : R LC.LCTerm := do
+  match ← asOpt v with
+  | none => pure .one
+  | some l => do pure (.poly (← asNats l))
+
+def asTerm (v : Val) : R (Fp p × LC.LCTerm) := do
+  match ← asList v with
+  | [c, t] => do pure (← asFe c, ← asOptLabel t)
+  | _ => .error "bad-term"
+
+def asTerms (v : Val) : R (List (Fp p × LC.LCTerm)) := do (← asList v).mapM asTerm
+
+def asOp (v : Val) : R (LC.Op (Fp p)) := do
+  match ← asList v with
+  | [.n 0, c, ts] => do pure (.addScaled (← asFe c) ⟨[], ← asTerms ts⟩)
+  | [.n 1, c, ts] => do pure (.subScaled (← asFe c) ⟨[], ← asTerms ts⟩)
+  | [.n 2, ts] => do pure (.addLC ⟨[], ← asTerms ts⟩)
+  | [.n 3, ts] => do pure (.subLC ⟨[], ← asTerms ts⟩)
+  | [.n 4, c] => do pure (.addConst (← asFe c))
+  | [.n 5, c] => do pure (.subConst (← asFe c))
+  | [.n 6, c] => do pure (.mulConst (← asFe c))
+  | [.n 7, c, t] => do pure (.push (← asFe c) (← asOptLabel t))
+  | _ => .error "bad-op"
+
+def asSigmaEntry (v : Val) : R (LC.Label × Fp p) := do
+  match ← asList v with
+  | [l, x] => do pure (← asNats l, ← asFe x)
+  | _ => .error "bad-sigma"
+
+/-- the assignment given by an association list; labels not listed evaluate to 0 -/
+def sigmaOf (tbl : List (LC.Label × Fp p)) (l : LC.Label) : Fp p :=
+  match tbl.find? (fun e => e.1 == l) with
+  | some e => e.2
+  | none => 0
+
+def vTermLabel : LC.LCTerm → Val
+  | .one => .none
+  | .poly l => .some (vNats l)
+
+def asPoly (v : Val) : R (QS.Label × List (Fp p)) := do
+  match ← asList v with
+  | [l, cs] => do pure (← asNats l, ← asFes cs)
+  | _ => .error "bad-poly"
+
+def asQuery (v : Val) : R (QS.Label × (QS.Label × Fp p)) := do
+  match ← asList v with
+  | [l, pl, pt] => do pure (← asNats l, (← asNats pl, ← asFe pt))
+  | _ => .error "bad-query"
+
+/-- `Ord for Fp`: compares the canonical representatives -/
+def ltFp (a b : Fp p) : Bool := decide (a.v < b.v)
+
+def handleC16 (r : Req) : R String := do
+  match r.op with
+  | "c16.lc" =>
+    let init ← asTerms (p := p) (← need r "init")
+    let ops ← (← asList (← need r "ops")).mapM (asOp (p := p))
+    let tbl ← (← asList (← need r "sigma")).mapM (asSigmaEntry (p := p))
+    let a : LC.LinComb (Fp p) := LC.new [] init
+    let res := LC.applyOps a ops
+    let σ := sigmaOf tbl
+    pure <| okReply [("coeffs", vFes (res.terms.map (·.1))),
+      ("labels", .l (res.terms.map (fun ct => vTermLabel ct.2))),
+      ("value", vFe (LC.value res σ)),
+      ("spec", vFe (LC.specOps σ (LC.value a σ) ops))]
+  | "c16.succinct" =>
+    let us ← asFes (p := p) (← need r "us")
+    let z ← asFe (p := p) (← need r "z")
+    let cs := Succinct.computeCoeffs us
+    pure <| okReply [("coeffs", vFes cs), ("len", .n cs.length),
+      ("value", vFe (Succinct.evaluate us z)), ("horner", vFe (evalPoly cs z))]
+  | "c16.qs" =>
+    let polys ← (← asList (← need r "polys")).mapM (asPoly (p := p))
+    let qs ← (← asList (← need r "qs")).mapM (asQuery (p := p))
+    pure <| exceptReply
+      (QS.evaluateQuerySet QS.ltLabel (QS.ltKey ltFp) (fun (c : List (Fp p)) x => evalPoly c x)
+        polys qs)
+      fun m => [("labels", .l (m.map (fun kv => vNats kv.1.1))),
+                ("points", vFes (m.map (fun kv => kv.1.2))),
+                ("vals", vFes (m.map (fun kv => kv.2)))]
+  | _ => .error "unknown-op"
 
 /-- `none` = not an op of this module -/
 def handle (p : Nat) (r : Req) : Option (Except String String) :=
-  let _ := p
-  let _ := r
-  none
+  if r.op.startsWith "c16." then some (handleC16 (p := p) r) else none
 
 end DrvC16
 end PCV
